@@ -10,6 +10,7 @@ PLAN = dict(
           "block-before-i|len64|attrs_i recomputed by the harness; dishonest => error and stack unchanged; bad trailing length => error; Web Bundle ID == own "
           "lower-case unpadded base32(key|000102). cli: sign-bundle integrity-block on generated files: exit 0, output == block | input bytes, one verifying "
           "signature, printed ID == own computation == dump-id -privateKey == dump-id -publicKey; its own output / too-small / too-large trailing length as "
+          "Every verified (key, signature, data) triple is also put to integrityblock.VerifyEd25519Signature, which must say yes to it and never yes to a one-bit neighbour of signature, data or key. "
           "input => non-zero exit. Non-trivial: >= 2 signatures in the history, or extra attributes, or a dishonest strategy (lib); every executed pipeline (cli)."),
     assumptions=TRUSTED + ["crypto/ed25519 Verify as the judge of signatures", "exit status and files of the CLI are the observation, never message wording "
                            "(except the 56-character base32 word on stdout)",
